@@ -9,26 +9,30 @@ check_ids = [pid]
 if "--check-ids" in sys.argv: check_ids = sys.argv[sys.argv.index("--check-ids")+1].split(",")
 src = f"/tmp/seed/out/{pid}/{v}"; dst = f"/verif/seeded/{pid}-{v}"
 def sh(cmd, **kw): return subprocess.run(cmd, shell=True, text=True, stdout=subprocess.PIPE, stderr=subprocess.STDOUT, **kw)
-assert sh("git -C /repo status --porcelain").stdout.strip() == "", "repo not clean"
-env_demo = "cd /tmp && PYTHONPATH=/repo/src timeout 300 /venv/bin/python"
+# work in a scratch worktree of /repo's HEAD (outside /repo and /verif), so /repo itself is never touched
+WT = os.environ.get("SEED_WT", "/tmp/seedwt")
+if not os.path.isdir(WT):
+    r = sh(f"git -C /repo worktree add -q --detach {WT} HEAD"); assert r.returncode == 0, r.stdout
+sh(f"git -C {WT} reset -q --hard; git -C {WT} clean -fdq; git -C {WT} checkout -q --detach $(git -C /repo rev-parse HEAD)")
+env_demo = f"cd /tmp && PYTHONPATH={WT}/src timeout 300 /venv/bin/python"
 meta = {"property": pid, "variant": v, "repo_head": sh("git -C /repo rev-parse --short HEAD").stdout.strip()}
 r = sh(f"{env_demo} {src}/demo.py"); meta["demo_on_unchanged_tree_exit"] = r.returncode
-ap = sh(f"cd /repo && (git apply {src}/patch.diff || patch -p1 -F3 -s --no-backup-if-mismatch < {src}/patch.diff)")
+ap = sh(f"cd {WT} && (git apply {src}/patch.diff || patch -p1 -F3 -s --no-backup-if-mismatch < {src}/patch.diff)")
 if ap.returncode != 0:
-    sh("git -C /repo reset -q --hard HEAD; git -C /repo clean -fdq src"); sys.exit(f"patch does not apply: {ap.stdout}")
+    sh(f"git -C {WT} reset -q --hard HEAD; git -C {WT} clean -fdq"); sys.exit(f"patch does not apply: {ap.stdout}")
 os.makedirs(dst, exist_ok=True)
 try:
-    open(f"{dst}/patch.diff", "w").write(sh("git -C /repo diff").stdout)
+    open(f"{dst}/patch.diff", "w").write(sh(f"git -C {WT} diff").stdout)
     shutil.copy(f"{src}/demo.py", f"{dst}/demo.py")
     r = sh(f"{env_demo} {src}/demo.py"); meta["demo_with_patch_exit"] = r.returncode; meta["demo_with_patch_tail"] = r.stdout.strip().splitlines()[-3:]
-    r = sh("python3 /verif/tools/baseline.py /repo"); meta["baseline_with_patch"] = r.stdout.strip().splitlines()[-2:]; meta["baseline_with_patch_ok"] = r.returncode == 0
+    r = sh(f"python3 /verif/tools/baseline.py {WT}"); meta["baseline_with_patch"] = r.stdout.strip().splitlines()[-2:]; meta["baseline_with_patch_ok"] = r.returncode == 0
     meta["checks"] = {}
     for cid in check_ids:
-        t=time.time(); r = sh(f"cd /verif && timeout -k 5 600 bin/check {cid} --tier quick"); 
+        t=time.time(); r = sh(f"cd /verif && VERIF_REPO={WT} VERIF_EVIDENCE_DIR=/tmp/seed_evidence timeout -k 5 600 bin/check {cid} --tier quick"); 
         lines = [l for l in r.stdout.splitlines() if "new signature" in l or l.startswith("VIOLATION") or "HARNESS" in l]
         meta["checks"][cid] = {"cmd": f"bin/check {cid} --tier quick", "exit": r.returncode, "caught": r.returncode == 1, "wall_s": round(time.time()-t,1), "lines": lines[:6]}
 finally:
-    sh("git -C /repo reset -q --hard HEAD; git -C /repo clean -fdq src")
+    sh(f"git -C {WT} reset -q --hard HEAD; git -C {WT} clean -fdq")
 notes = open(f"{src}/notes.md").read() if os.path.exists(f"{src}/notes.md") else ""
 meta["needs_to_manifest"] = notes[:3000]
 meta["how_obtained"] = "written by a fresh sub-agent that saw only the property text and a scratch worktree; re-confirmed here (demo passes unchanged / fails patched, baseline suite passes patched)"
